@@ -50,7 +50,13 @@ RULE = ("kind=lists (batches of 25): a list of 0..8 Transfer objects, each drive
         "pinned stored format; the application persists on change (listener on TransferAdded/Removed/ProgressEvent "
         "calling write_cache(), sync or suspending) and the process ends after the last listener write; the user "
         "removes the download at the instant (remove() completes, or its task is cancelled inside the removal "
-        "notification and the client is then stopped). New clients with the same names, ports, directories "
+        "notification and the client is then stopped). START-UP ORDER: at every judged restart of kind=lists a "
+        "further client on a copy of the cache goes through client.start(connect=False) (load_data() of all "
+        "services, then start() of all services; no login, no call of manage_transfers by the harness), and in a "
+        "third of the crash runs the new client logs in 1 virtual second after start(): within that second (four "
+        "of the longest management intervals) the management job must have run a cycle and started to work on "
+        "every loaded download that is eligible and on at least one eligible upload (wrappers on "
+        "manage_transfers / _queue_remotely / _initialize_upload). New clients with the same names, ports, directories "
         "and caches are started; the loaded managers are judged inside load_data(), the run continues for up to 2 "
         "virtual hours, the resumed download is checked like C04 (offset on the wire == local size, COMPLETE => "
         "file == source), and after the final stop() the caches are loaded once more into fresh managers. "
@@ -94,12 +100,14 @@ MIN_OBS = {
               'fresh_checks': 3000, 'crash_runs': 50, 'crash_loads_judged': 80,
               'foreign_records': 1500, 'foreign_remotely_queued_downloads': 120,
               'writes_inside_removal_notification': 300, 'removals_cancelled_in_notification': 150,
-              'ends_after_listener_write': 400, 'user_removals_live': 10, 'crash_pinned_writes': 8},
+              'ends_after_listener_write': 400, 'user_removals_live': 10, 'crash_pinned_writes': 8,
+              'startup_probes_with_eligible': 1200, 'startup_eligible_transfers': 2500},
     'thorough': {'lists_checked': 55000, 'transfers_compared': 150000, 'legacy_records': 9000,
                  'collision_pairs': 4500, 'fresh_checks': 90000, 'crash_runs': 2700, 'crash_loads_judged': 4000,
                  'foreign_records': 100000, 'foreign_remotely_queued_downloads': 8000,
                  'writes_inside_removal_notification': 20000, 'removals_cancelled_in_notification': 10000,
-                 'ends_after_listener_write': 30000, 'user_removals_live': 1000, 'crash_pinned_writes': 400},
+                 'ends_after_listener_write': 30000, 'user_removals_live': 1000, 'crash_pinned_writes': 400,
+                 'startup_probes_with_eligible': 80000, 'startup_eligible_transfers': 160000},
 }
 SHARD_TIMEOUT = {'quick': 900, 'thorough': 7200}
 WHAT_FAILS = {
@@ -323,6 +331,69 @@ def judge_load(V, obs: dict, cover: set, expected: list[dict], manager, ever_wri
     sched_upload_users = {t.username for t in uploads}
     for u in sorted(queued_upload_users - sched_upload_users):
         V('not-fresh:not-scheduled:QUEUED', user=u, direction='upload')
+
+
+def eligible_for_scheduling(transfers: list) -> tuple[list, list]:
+    """(downloads, uploads) a management cycle has to pick up (status of the users unknown).
+    Of the uploads only one per user is started at a time."""
+    busy_users = {t.username for t in transfers if t.is_upload() and t.is_processing()}
+    dls, uls = [], []
+    for t in transfers:
+        st = t.state.VALUE.name
+        if t.is_download():
+            if st in ('QUEUED', 'INCOMPLETE') or (st == 'FAILED' and t.fail_reason is None):
+                dls.append(t)
+        elif st == 'QUEUED' and t.username not in busy_users:
+            uls.append(t)
+    return dls, uls
+
+
+class CycleProbe:
+    """Instance-attribute wrappers on a manager: management cycles run by the management job
+    and the transfers it started to work on (observation only, the originals are called)."""
+
+    def __init__(self, manager):
+        self.cycles = 0
+        self.attempted: set = set()
+        orig_mt, orig_qr, orig_iu = manager.manage_transfers, manager._queue_remotely, manager._initialize_upload
+
+        def manage_transfers():
+            self.cycles += 1
+            return orig_mt()
+
+        async def _queue_remotely(transfer):
+            self.attempted.add(id(transfer))
+            return await orig_qr(transfer)
+
+        async def _initialize_upload(transfer):
+            self.attempted.add(id(transfer))
+            return await orig_iu(transfer)
+
+        manager.manage_transfers = manage_transfers
+        manager._queue_remotely = _queue_remotely
+        manager._initialize_upload = _initialize_upload
+
+    def judge(self, V, obs: dict, dls: list, uls: list, bound: float, where: str):
+        """``dls`` / ``uls``: what was eligible right after load_data()."""
+        obs['startup_probes'] += 1
+        if not dls and not uls:
+            return
+        obs['startup_probes_with_eligible'] += 1
+        obs['startup_eligible_transfers'] += len(dls) + len(uls)
+        w = {'eligible': [(list(ident(t)), t.state.VALUE.name) for t in dls + uls][:6], 'bound_s': bound,
+             'where': where}
+        if self.cycles == 0:
+            V('not-fresh:no-management-cycle-after-start', **w,
+              via='load_data() then start(): the management job never ran a cycle for the loaded transfers')
+            return
+        for t in dls:
+            if id(t) not in self.attempted:
+                V('not-fresh:not-scheduled-after-start:download', transfer=list(ident(t)), cycles=self.cycles, **w)
+        if uls and not any(id(t) in self.attempted for t in uls):
+            V('not-fresh:not-scheduled-after-start:upload', cycles=self.cycles, **w)
+
+
+STARTUP_BOUND = 1.0     # virtual seconds: four of the longest management intervals (0.25 s)
 
 
 def new_obs() -> dict:
@@ -774,6 +845,35 @@ async def _run_sub(res: dict, rng: random.Random, base: str, plan: dict) -> dict
                 model.append(r_)
             removed_ids.discard(i)
 
+    async def startup_probe() -> bool:
+        """A further client on a COPY of the cache goes through the client's own start-up order
+        (load_data() of all services, then start() of all services; no connect, no login, nothing
+        else is called): within a few management intervals the management job must have worked
+        on the loaded transfers."""
+        ctx['probes'] = ctx.get('probes', 0) + 1
+        pdir = os.path.join(base, f"probe{ctx['probes']}")
+        shutil.copytree(cache_dir, os.path.join(pdir, 'cache'))
+        pc = _make_client(pdir, os.path.join(pdir, 'cache'))
+        pm = pc.transfers
+        probe = CycleProbe(pm)
+        elig: dict = {}
+        orig_load = pm.load_data
+
+        async def load_data():
+            await orig_load()
+            elig['dls'], elig['uls'] = eligible_for_scheduling(list(pm.transfers))
+        pm.load_data = load_data
+        try:
+            await pc.start(connect=False)
+        except Exception as exc:  # noqa
+            V(f'load-exception:{type(exc).__name__}', where='client.start(connect=False)', exc=repr(exc)[:300])
+            return False
+        await asyncio.sleep(STARTUP_BOUND)
+        probe.judge(V, obs, elig.get('dls', []), elig.get('uls', []), STARTUP_BOUND, 'lists')
+        await pc.stop()
+        shutil.rmtree(pdir, ignore_errors=True)
+        return True
+
     async def restart(final: bool):
         nonlocal client, mgr, calls, legacy, loaded_ids
         gone = ever_written | removed_ids
@@ -798,6 +898,8 @@ async def _run_sub(res: dict, rng: random.Random, base: str, plan: dict) -> dict
             return False
         judge_load(V, obs, cover, expected, new_mgr, gone, 'lists')
         obs['lists_checked'] += 1
+        if not await startup_probe():
+            return False
         client, mgr, calls = new_client, new_mgr, new_calls
         legacy = set()
         loaded_ids = {id(t) for t in mgr.transfers}
@@ -1038,6 +1140,9 @@ def _run_crash(params: dict) -> dict:
         elif app:
             periodic = False
     k_app = (rng3.choice([0, 1, 3]), rng3.choice([0, 1, 2]))
+    # the user logs in a moment after start(): until then nothing but the requests made while
+    # loading can make the management job look at the loaded transfers
+    pre_login = rng3.choice([0.0, 0.0, STARTUP_BOUND])
     source = make_source(('c17', seed, i), size)
     tm = TransferMonitor()
     V = Verdicts()
@@ -1324,6 +1429,8 @@ def _run_crash(params: dict) -> dict:
                 shares_cache=SharesShelveCache(dirs['up']) if name == 'up' else None)
             mgr = h.client.transfers
             notify[name] = wrap_notify(mgr)
+            probe = CycleProbe(mgr)
+            elig: dict = {}
             expected = snaps.pop(name)
             gone = removed_idents.pop(name, set())
             orig_load = mgr.load_data
@@ -1336,6 +1443,7 @@ def _run_crash(params: dict) -> dict:
                       stored=[(list(e['id']), e['state']) for e in expected])
                     raise
                 judge_load(V, obs, cover, expected, mgr, gone, f'{end}:{name}')
+                elig['dls'], elig['uls'] = eligible_for_scheduling(list(mgr.transfers))
                 attach_app(name, h)                    # the new application instance
                 edge_base[name] = len(tm_edge_ids)     # read_cache's own repair edges precede add()
                 obs['crash_loads_judged'] += 1
@@ -1344,6 +1452,9 @@ def _run_crash(params: dict) -> dict:
             mgr.load_data = load_data
             wrap_write(name, mgr)
             await w.call(name, h.client.start())
+            if pre_login > 0:
+                await asyncio.sleep(pre_login)
+                probe.judge(V, obs, elig.get('dls', []), elig.get('uls', []), pre_login, f'crash:{name}')
             await w.call(name, h.client.login())
             announce(name, 2)
 
@@ -1420,7 +1531,8 @@ def _run_crash(params: dict) -> dict:
     final = out.result or {}
     ctx = {'phase': phase, 'end': end, 'who': who, 'size': size, 'limits': limits, 'cut_k': cut_k, 'lag': lag,
            'downtime': downtime, 'persisted': info['persisted'], 'last_write_format': fmt,
-           'persist_on_change': app, 'periodic_write_at_end': periodic, 'user_remove': user_remove}
+           'persist_on_change': app, 'periodic_write_at_end': periodic, 'user_remove': user_remove,
+           'login_delay': pre_login}
     V.flush(res, run=ctx, trace=trace[-40:])
     for k, v in obs.items():
         runner.add_obs(res, k, v)
